@@ -101,6 +101,7 @@ def candidates(case):
             if S.is_sched(m):
                 continue
             for key, neutral in (('cleanup', []), ('handler', []),
+                                 ('cleanup_outcome', None),
                                  ('forever', False), ('critical', False),
                                  ('outcome', 'ret'), ('cls', 'abstract')):
                 if m.get(key) != neutral:
